@@ -487,7 +487,7 @@ func _unused(_interface.LimitStore) {}
 // TestPropWriteThroughCrashes: write-through mode; every crash point of every generated history, plus injected faults.
 func TestPropWriteThroughCrashes(t *testing.T) {
 	sub := stats.NewSub("write-through-crash-enumeration", "rapid: shard count 2-3, history of 1-8 ops (save / save of a foreign-shard condition / delete / deleteUpstream / flush) on the API-backed store in write-through mode, API faults by call index (conflict, transient failure, applied-but-reply-lost); the history is run fault-free-crash-free once and then once per crash index k = 1..#API calls (crash = store abandoned after call k was applied), each followed by a takeover (new store + Load); oracle: acknowledged save/delete is in the API at once; after takeover every name holds its last acknowledged value or the outcome of a later unacknowledged operation, exactly the persisted conditions of the shard are loaded, nothing of other shards is loaded or touched; evaluations = executions (history x crash point); non-trivial = crash lands inside a multi-call operation or a fault was injected into an operation; distinct by FNV-64 of (history, faults, crash index)")
-	stats.Check(t, stats.N(250, 3000), func(t *rapid.T) {
+	stats.Check(t, stats.N(500, 3000), func(t *rapid.T) {
 		n := rapid.IntRange(2, 3).Draw(t, "N")
 		shard := rapid.IntRange(0, n-1).Draw(t, "shard")
 		own, foreign := pools(shard, n)
@@ -544,7 +544,7 @@ func TestPropWriteThroughCrashes(t *testing.T) {
 // TestPropPeriodicGracefulStop: periodic mode; a graceful stop flushes every pending condition; deletes are immediate.
 func TestPropPeriodicGracefulStop(t *testing.T) {
 	sub := stats.NewSub("periodic-graceful-stop", "rapid: the same op histories on the store in periodic mode (period 1 h, only Flush/Stop write), API faults by call index, always ended by a graceful stop; oracle: Flush()==nil / Stop()==nil => the API holds every local condition with its latest value; acknowledged deletes are gone from the API at once; foreign-shard saves refused; takeover loads exactly the shard's persisted conditions; non-trivial = history has a save that is only persisted by the stop, or a fault; distinct by FNV-64 of (history, faults)")
-	stats.Check(t, stats.N(400, 4000), func(t *rapid.T) {
+	stats.Check(t, stats.N(800, 4000), func(t *rapid.T) {
 		n := rapid.IntRange(2, 3).Draw(t, "N")
 		shard := rapid.IntRange(0, n-1).Draw(t, "shard")
 		own, foreign := pools(shard, n)
